@@ -713,10 +713,11 @@ def sources_decl(rng, did, p_fallible=0.5, nsync=None):
     return {'id': did, 'injector': 'Init_' + did, 'ret': sink, 'types': types, 'providers': provs, 'layout': ids, 'planted': None}
 
 
-def wide_decl(rng, did, width=10, p_fallible=0.0, sync_root=True, p_root=0.85):
+def wide_decl(rng, did, width=10, p_fallible=0.0, sync_root=True, p_root=0.85, njoin=0, nleaf=0, ordered=False):
     """Wide fan-out: one root (synchronous or Async) consumed by `width` Async providers (a few of them also chained in
-    pairs), all feeding one sink — more goroutine chains than any small declaration has (boundary sizes of the
-    scheduler: chain counts, channel counts, parameter counts)."""
+    pairs), then `njoin` Async providers joining two of them and `nleaf` synchronous providers hanging off one of them, all
+    feeding one sink — more goroutine chains, ready nodes and pools than any small declaration has (boundary sizes of the
+    scheduler: queue lengths, chain counts, pool counts, channel counts, parameter counts)."""
     types = {'T0': {'form': 'ptr'}}
     provs = [{'id': 'P0', 'kind': 'fn', 'requires': [], 'provides': [['T0']], 'async': not sync_root, 'fallible': rng.random() < p_fallible,
               'wrap': 'async-bind', 'struct': ''}]
@@ -728,11 +729,24 @@ def wide_decl(rng, did, width=10, p_fallible=0.0, sync_root=True, p_root=0.85):
         provs.append({'id': 'P%d' % i, 'kind': 'fn', 'requires': req, 'provides': [['T%d' % i]], 'async': rng.random() < 0.92,
                       'fallible': rng.random() < p_fallible, 'wrap': 'async-bind', 'struct': ''})
     n = width + 1
+    for j in range(njoin + nleaf):
+        types['T%d' % n] = {'form': rng.choice(['ptr', 'val'])}
+        if j < njoin:
+            a = (j + 1) if ordered else rng.randrange(1, width)
+            req = ['T%d' % a, 'T%d' % (a + 1)]
+        else:
+            req = ['T%d' % ((njoin + 1) if ordered else rng.randrange(1, width + 1))]
+        provs.append({'id': 'P%d' % n, 'kind': 'fn', 'requires': req, 'provides': [['T%d' % n]], 'async': j < njoin,
+                      'fallible': rng.random() < p_fallible, 'wrap': 'async-bind', 'struct': ''})
+        n += 1
     types['T%d' % n] = {'form': 'ptr'}
-    req = ['T%d' % i for i in range(1, width + 1)]
+    req = ['T%d' % i for i in range(1, n)]
     rng.shuffle(req)
-    provs.append({'id': 'P%d' % n, 'kind': 'fn', 'requires': req, 'provides': [['T%d' % n]], 'async': rng.random() < 0.3,
+    if ordered:
+        req = sorted(req, key=lambda t: int(t[1:]))
+    provs.append({'id': 'P%d' % n, 'kind': 'fn', 'requires': req, 'provides': [['T%d' % n]], 'async': (rng.random() < 0.3) and not ordered,
                   'fallible': rng.random() < p_fallible, 'wrap': 'async-bind', 'struct': ''})
     ids = [p['id'] for p in provs]
-    rng.shuffle(ids)
+    if not ordered:
+        rng.shuffle(ids)
     return {'id': did, 'injector': 'Init_' + did, 'ret': 'T%d' % n, 'types': types, 'providers': provs, 'layout': ids, 'planted': None}
